@@ -21,7 +21,11 @@ RULE = ('(1) copy(): equal state, then 3-10 random mutations of either side leav
         'Second stream of cases (own generator, run after the first): (5) link histories over 3 streams, 4-10 ops from {link_with(flags), proxy, flow_proxy, unlink (either side), copy, mutate with the rich set '
         'incl. copy_like / mix_from a donor and mol[:]=} against a model sharing graph, values checked after every op and all ordered pairs probed behaviourally; (6) copy(thermo=other package), copy.copy, copy of a phase view, '
         'copy of an ID-carrying stream; (7) copy_flow(remove=False) all / IDs / exclude / phase forms onto single and multi targets, copy_thermal_condition, copy_phase; (8) link_with across kinds / phase sets / packages '
-        '(refusal leaves both untouched, otherwise the linked parts are equal and shared); (9) pickles of empty / one-phase-multi / S,L labels / units+total_flow / proxy / phase view / linked pair / indexers / '
+        '(a refusal is granted only where link_with documents one - different kinds, or flow=True with other chemical IDs / other phase sets, decided from the inputs - and leaves both untouched; any other refusal is a violation; '
+        'otherwise the linked parts are equal and shared); every refusal of copy_flow / copy(thermo=) / copy_phase / copy_like onto a phase view is likewise granted only when the inputs warrant it (listed ID absent from the package doing the look-up, '
+        'source phase absent from a multi-phase target, multi-phase target on other chemical IDs, package lacking a held chemical, multi-phase source, source in another phase than the view), and a refused copy_flow must leave source and target as they were; '
+        'after an accepted copy_flow every (phase, chemical) of the target that the call did not select holds its value from before (single-phase source onto a multi-phase target with exclude=False: that value or zero), and T, P, phase(s) of the target are unchanged; '
+        'reach counters named after a form (copy2:, copy_like2:, pickle2:, basis:) count judged cases, not attempts; (9) pickles of empty / one-phase-multi / S,L labels / units+total_flow / proxy / phase view / linked pair / indexers / '
         'SeriesReaction / ReactionSystem / ReactionItem / edited X / user-defined and modified chemicals / aliases and groups / every cucumber class; (10) copy_like onto itself, between linked streams, onto and from phase views. '
         'Third stream of cases (own generator, run last): (11) flows on EVERY basis: streams whose mass / volumetric views already exist (imass, mass, ivol, vol, get_flow, show(flow=kg/hr), constructor units=, phase views and their '
         'imass / ivol) go through 1-3 rounds of copy_like / set_data(get_data()) / copy_flow / imol.copy_like / imass.copy_like from two sources over the kind x package x phase-set matrix (then copy / pickle of the target), '
@@ -29,7 +33,9 @@ RULE = ('(1) copy(): equal state, then 3-10 random mutations of either side leav
         'm3/hr, F_mass, F_vol, and the same through every phase view incl. its T, P) must agree with the molar rows (volumes: with a fresh stream in the same state), and 0-4 flows written per step on the mass / volumetric / molar basis through '
         'the indexer, a phase view, set_flow or the data array must land in the stream written to and in its flow-sharing partner only')
 MIN_NONTRIVIAL = {'quick': 500, 'thorough': 20000}
-ASSUMPTIONS = ['class-changing conversions on one side of a link are excluded from sharing sequences (they replace the shared indexer by design; C12)',
+ASSUMPTIONS = ['copy_flow(IDs=..., exclude=False) from another package: target chemicals the source package does not list are not judged (the library empties them; nothing selects or deselects them); '
+               'MultiStream.copy_flow from a single-phase source with exclude=False empties the unselected cells of the target (undocumented): they are accepted as either kept or zero, never as something brought over',
+               'class-changing conversions on one side of a link are excluded from sharing sequences (they replace the shared indexer by design; C12)',
                'copy_like target lists every chemical of the source',
                'in link histories the donors of copy_like / mix_from and all three streams have the same kind and phase set (a phase expansion replaces the shared rows by design; C12)',
                'link_with on a stream that is a proxy of (or has a proxy among) the other streams: the sharing of those third parties is not judged (no documented semantics); the linked pair itself is',
@@ -47,6 +53,9 @@ def required(tier):
             'copy2', 'copy2:thermo', 'copy2:copy.copy', 'copy2:view', 'copy2:ID',
             'copy_flow', 'copy_flow:single-target', 'copy_flow:multi-target', 'copy_flow:multi-source', 'copy_flow:foreign', 'copy_flow:exclude', 'copy_thermal_condition', 'copy_phase',
             'linkkinds:cross-kind', 'linkkinds:phase-sets', 'linkkinds:packages',
+            'linkkinds:refused-warranted', 'linkkinds:accepted/no-flow/other-package', 'linkkinds:accepted/no-flow/other-phases',
+            'copy_flow:judged/single-target', 'copy_flow:judged/multi-target', 'copy_flow:unselected-judged', 'copy_flow:unselected-judged/emptied-or-kept', 'copy_flow:refused-warranted',
+            'copy2:thermo-refused-warranted', 'copy_like2:view-target-refused-warranted', 'copy_phase:refused-warranted', 'linkseq:vol-view-judged', 'basis:vol-judged',
             'pickle2', 'pickle2:empty', 'pickle2:M1', 'pickle2:labels', 'pickle2:units', 'pickle2:proxy', 'pickle2:view', 'pickle2:linked-pair', 'pickle2:indexer', 'pickle2:isplit',
             'pickle2:SeriesReaction', 'pickle2:ReactionSystem', 'pickle2:ReactionItem', 'pickle2:X-edited', 'pickle2:Chemical-blank', 'pickle2:Chemical-user', 'pickle2:Chemical-Hf',
             'pickle2:Chemicals-alias', 'pickle2:Chemicals-group', 'pickle2:Thermo-custom', 'pickle2:IdealThermo', 'pickle2:handles',
@@ -256,13 +265,11 @@ def run_link(case, rec):
         probe_sharing(a, b, rec, clause, expect, tag)
     except Exception as e:
         rec.exception(clause, e, what=f'probing sharing after {tag} raised {type(e).__name__}: {str(e)[:150]}'); return
-    # unlink: values preserved, nothing shared any more (locked phases refuse)
+    # unlink: values preserved, nothing shared any more. Only the phase views of a multi-phase stream document a refusal ('phase is locked'); neither stream
+    # here is one, so every raise (that RuntimeError included) is judged
     before = snap(b)
     try:
         b.unlink()
-    except RuntimeError as e:
-        if 'locked' in str(e): rec.refuse('unlink refused: locked phase'); return
-        rec.exception('unlink', e, what=f'unlink raised {e}'); return
     except Exception as e:
         rec.exception('unlink', e, what=f'unlink after {tag} raised {type(e).__name__}: {str(e)[:150]}'); return
     rec.check(same_snap(snap(b), before), 'unlink', f'values/{tag}', f'unlink changed the values: {before} -> {snap(b)}')
@@ -563,6 +570,7 @@ def run_linkseq(case, rec):
             got = s.vol.to_array()
         except Exception as e:
             rec.exception('linkseq', e, what=f'vol of a stream at the end of a link history raised {type(e).__name__}: {str(e)[:150]}'); return
+        rec.hit('linkseq:vol-view-judged')
         rec.check(bool(np.allclose(got, ref, rtol=1e-9, atol=0)), 'linkseq', f'vol-view/{kind}', f'volumetric view of a stream at the end of a link history differs from that of its copy: {got.tolist()} vs {ref.tolist()}')
     rec.hit('linkseq')
 
@@ -583,7 +591,6 @@ def indep_after(a, b, rec, clause, tag):
 
 def run_copy2(case, rec):
     form = case['form']
-    rec.hit('copy2:' + form)
     a = build_stream(case['a'], PKGS)
     multi = isinstance(a, tmo.MultiStream)
     tag = form + '/' + ('multi' if multi else 'single')
@@ -593,8 +600,14 @@ def run_copy2(case, rec):
         sa = snap(a)
         try:
             b = a.copy(thermo=th)
-        except tmo.exceptions.UndefinedChemicalAlias:
-            rec.refuse('copy(thermo=): the package lacks a chemical the stream holds'); return
+        except tmo.exceptions.UndefinedChemicalAlias as e:
+            # documented refusal only when the requested package really lacks a chemical the stream holds (seen from the inputs, not from the exception)
+            held = {c for (ph_, c) in sa['flows']}
+            lacking = sorted(held - set(th.chemicals.CASs))
+            if not lacking:
+                rec.check(False, 'copy2', f'refused-unwarranted/{tag}', f'copy(thermo=) raised UndefinedChemicalAlias ({str(e)[:80]}) although the requested package lists every chemical the stream holds: {sorted(held)}'); return
+            rec.refuse('copy(thermo=): the package lacks a chemical the stream holds'); rec.hit('copy2:thermo-refused-warranted')
+            rec.check(same_snap(snap(a), sa), 'copy2', f'refused-but-changed/{tag}', f'a refused copy(thermo=) changed the original: {sa} -> {snap(a)}'); return
         except Exception as e:
             rec.exception('copy2', e, what=f'copy(thermo=other) raised {type(e).__name__}: {str(e)[:150]}'); return
         try:
@@ -646,12 +659,20 @@ def run_copy2(case, rec):
         rec.check(same_snap(snap(s), sa) and s.ID == 'c13_src', 'copy2', f'source-changed/{tag}', 'copy changed the ID-carrying original')
         indep_after(s, b, rec, 'copy2', tag)
         if len(sa['flows']) >= 2: rec.mark_nontrivial(case_hash(case))
+    rec.hit('copy2:' + form)      # counted once the form has been judged (not on entry: a form that always raises must leave its required counter at zero)
     rec.hit('copy2')
 
 
 # ---------------------------------------------------------------------------------------------------------------------
 def totals(s):
     return bycas(phase_ledger(s))
+
+
+def phase_row(ph, phases):
+    """the label among `phases` that phase `ph` is filed under (the library's phase index falls back to the other case of the letter), or None."""
+    if ph in phases: return ph
+    alt = ph.lower() if ph.isupper() else ph.upper()
+    return alt if alt in phases else None
 
 
 def run_copyflow(case, rec):
@@ -681,7 +702,11 @@ def run_copyflow(case, rec):
         try:
             dst.copy_phase(src)
         except ValueError as e:
-            if 'multiple phases' in str(e): rec.refuse('copy_phase from a multi-phase stream refused'); return
+            if 'multiple phases' in str(e):
+                if not sm:      # documented for a multi-phase source only
+                    rec.check(False, 'copy_phase', f'refused-unwarranted/{tag}', f'copy_phase from a single-phase stream raised ValueError: {str(e)[:100]}'); return
+                rec.refuse('copy_phase from a multi-phase stream refused'); rec.hit('copy_phase:refused-warranted')
+                rec.check(same_snap(snap(src), ss) and dst.phase == case['dst']['phase'], 'copy_phase', f'refused-but-changed/{tag}', 'a refused copy_phase changed a stream'); return
             rec.exception('copy_phase', e, what=f'copy_phase({tag}) raised ValueError: {str(e)[:150]}'); return
         except Exception as e:
             rec.exception('copy_phase', e, what=f'copy_phase({tag}) raised {type(e).__name__}: {str(e)[:150]}'); return
@@ -702,6 +727,21 @@ def run_copyflow(case, rec):
     if exclude: rec.hit('copy_flow:exclude')
     src_ids = src.chemicals.IDs; src_cas = src.chemicals.CASs
     listed = set() if IDs is None else ({IDs} if isinstance(IDs, str) else set(IDs))
+    before = snap(dst)
+    dphs = tuple(dst.phases) if dm else (dst.phase,)
+    dst_cas = dst.chemicals.CASs
+    src_row = None if sm else phase_row(src.phase, dphs)      # the row of the target a single-phase source goes to (label fall-back of the phase index: 'L' -> 'l')
+    # the refusals copy_flow documents, decided from the INPUTS (not from the exception that came back):
+    #  multi-phase target on a package with other chemical IDs (ValueError 'same chemicals'); a listed ID that the package doing the look-up does not have
+    #  (UndefinedChemicalAlias: the target's package for a multi-phase target, the source's for a single-phase one unless exclude=True, which skips unknown IDs;
+    #  or, across packages, a selected chemical the source holds and the target's package lacks); single-phase source in a phase the multi-phase target lacks (UndefinedPhase)
+    w_chem = dm and src.chemicals.IDs != dst.chemicals.IDs
+    if dm: w_alias = any(i not in dst.chemicals for i in listed)
+    else:
+        st_ = bycas(ss['flows'])
+        chosen_cas = [c for i, c in zip(src_ids, src_cas) if (IDs is None or ((i in listed) != exclude))]
+        w_alias = (not exclude and any(i not in src.chemicals for i in listed)) or (foreign and not (IDs is None and exclude) and any(st_.get(c) and c not in dst_cas for c in chosen_cas))
+    w_phase = dm and not sm and src_row is None
     try:
         if dm:
             if phase is not None: kw['phase'] = phase
@@ -710,21 +750,35 @@ def run_copyflow(case, rec):
         else:
             if ids_arg is not None: dst.copy_flow(src, ids_arg, **kw)
             else: dst.copy_flow(src, **kw)
-    except tmo.exceptions.UndefinedPhase:
-        rec.refuse('copy_flow: the target lacks the phase of the source (UndefinedPhase)'); return
-    except tmo.exceptions.UndefinedChemicalAlias:
-        rec.refuse('copy_flow: a listed chemical is not in a package (UndefinedChemical)'); return
-    except ValueError as e:
-        if 'same chemicals' in str(e): rec.refuse('copy_flow onto a multi-phase stream with other chemicals refused'); return
-        if 'same phases' in str(e) and tag.endswith('/different-phases'): rec.refuse('copy_flow between multi-phase streams with different phase sets refused (ValueError: same phases)'); return
-        if 'shape mismatch' in str(e) and tag.endswith('/different-phases'): rec.refuse('copy_flow between multi-phase streams with different phase sets: shape mismatch'); return
-        rec.exception('copy_flow', e, what=f'copy_flow({ftag}; {tag}) raised ValueError: {str(e)[:150]}'); return
+    except (tmo.exceptions.UndefinedPhase, tmo.exceptions.UndefinedChemicalAlias, ValueError) as e:
+        msg = str(e)
+        if isinstance(e, tmo.exceptions.UndefinedPhase): kind_, ok_, why = 'UndefinedPhase', w_phase, 'copy_flow: the target lacks the phase of the source (UndefinedPhase)'
+        elif isinstance(e, tmo.exceptions.UndefinedChemicalAlias): kind_, ok_, why = 'UndefinedChemical', w_alias, 'copy_flow: a listed chemical is not in a package (UndefinedChemical)'
+        elif 'same chemicals' in msg: kind_, ok_, why = 'same-chemicals', w_chem, 'copy_flow onto a multi-phase stream with other chemicals refused'
+        elif 'same phases' in msg: kind_, ok_, why = 'same-phases', tag.endswith('/different-phases'), 'copy_flow between multi-phase streams with different phase sets refused (ValueError: same phases)'
+        elif 'shape mismatch' in msg: kind_, ok_, why = 'shape-mismatch', tag.endswith('/different-phases'), 'copy_flow between multi-phase streams with different phase sets: shape mismatch'
+        else:
+            rec.exception('copy_flow', e, what=f'copy_flow({ftag}; {tag}) raised ValueError: {msg[:150]}'); return
+        if not ok_:
+            # the exception type of a documented refusal, on inputs for which nothing is to be refused: judged, not counted
+            rec.check(False, 'copy_flow', f'refused-unwarranted/{kind_}/{ftag}/{tag}', f'copy_flow({ftag}; {tag}) raised {type(e).__name__}: {msg[:120]} although the inputs give no ground for it '
+                      f'(listed {sorted(listed)}, source package {list(src_ids)}, target package {list(dst.chemicals.IDs)}, source phases {ss["phases"]}, target phases {dphs})'); return
+        rec.refuse(why); rec.hit('copy_flow:refused-warranted')
+        # a refusal is not a copy: the source is as before. (The target of MultiStream.copy_flow may already have been emptied when UndefinedPhase comes back - recorded separately.)
+        try:
+            rec.check(same_snap(snap(src), ss), 'copy_flow', f'refused-but-source-changed/{kind_}/{tag}', f'a refused copy_flow changed its source: {ss} -> {snap(src)}')
+            rec.check(same_snap(snap(dst), before), 'copy_flow', f'refused-but-target-changed/{kind_}/{tag}', f'a refused copy_flow ({type(e).__name__}: {msg[:60]}) changed its target: {before} -> {snap(dst)}')
+        except Exception as e2:
+            rec.exception('copy_flow', e2, what=f'reading the streams after a refused copy_flow ({tag}) raised {type(e2).__name__}: {str(e2)[:150]}')
+        return
     except IndexError as e:
         if tag.endswith('/different-phases'):     # same row pairing as the wrong-flows form of this key
             rec.check(False, 'copy_flow', f'flows/{tag}', f'copy_flow({ftag}) between multi-phase streams with different phase sets raised IndexError: {str(e)[:120]}'); return
         rec.exception('copy_flow', e, what=f'copy_flow({ftag}; {tag}) raised IndexError: {str(e)[:150]}'); return
     except Exception as e:
         rec.exception('copy_flow', e, what=f'copy_flow({ftag}; {tag}) raised {type(e).__name__}: {str(e)[:150]}'); return
+    # accepted although the inputs call for a refusal: the flows / unselected checks below judge what came out (nothing can be right when a listed chemical or the source's phase has no place in the target)
+    if w_chem or w_alias or w_phase: rec.hit('copy_flow:accepted-where-refusal-documented')
     rec.check(same_snap(snap(src), ss), 'copy_flow', f'source-changed/{ftag}/{tag}', f'copy_flow(remove=False) changed its source: {ss} -> {snap(src)}')
     if IDs is None and exclude:
         pass        # nothing selected
@@ -738,24 +792,64 @@ def run_copyflow(case, rec):
         dl = phase_ledger(dst); sl = ss['flows']
         dphs = tuple(dst.phases)
         sphs = tuple(src.phases) if sm else (src.phase,)
-        if not sm and phase is not None and phase != src.phase and not exclude: sphs = ()      # the phase filter selects nothing of the source
+        if not sm and phase is not None and phase != src_row and not exclude: sphs = ()      # the phase filter selects nothing of the source
         psel = set(dphs) if phase is None else {phase}
         bad = []
         for ph in sphs:
-            if ph not in dphs: continue
+            tph = ph if sm else src_row       # a single-phase source in phase 'L' is filed under 'l' by a target that has no 'L' (and the reverse)
+            if tph is None or tph not in dphs: continue
+            if tph != ph: rec.hit('copy_flow:case-variant-row')
             for i, c in zip(src_ids, src_cas):
                 if sm: chosen = ((ph in psel) and (IDs is None or i in listed)) != exclude
-                elif exclude: chosen = not ((ph in psel) and i in listed)
+                elif exclude: chosen = not ((tph in psel) and i in listed)
                 else: chosen = IDs is None or i in listed
-                if chosen and sl.get((ph, c), 0.0) != dl.get((ph, c), 0.0): bad.append((ph, c, sl.get((ph, c), 0.0), dl.get((ph, c), 0.0)))
+                if chosen and sl.get((ph, c), 0.0) != dl.get((tph, c), 0.0): bad.append((ph, c, sl.get((ph, c), 0.0), dl.get((tph, c), 0.0)))
         # between different phase sets every call form goes through the same row pairing: one key
         rec.check(not bad, 'copy_flow', f'flows/{tag}' if tag.endswith('/different-phases') else f'flows/{ftag}/{tag}', f'after copy_flow({ftag}) the selected flows differ (phase, CAS, source, target): {bad}')
+    # what the call did NOT select stays what the target held before (a copy that ignores IDs / exclude / phase and brings everything over fails here)
+    try:
+        da = phase_ledger(dst); b4 = before['flows']
+        src_cas_set = set(src_cas)
+        lcas = {c for i, c in zip(src_ids, src_cas) if i in listed} | {c for i, c in zip(dst.chemicals.IDs, dst_cas) if i in listed}
+        keep = set(); keep_or_zero = set()
+        if not dm:
+            ph_ = dst.phase
+            if IDs is None: U = set(dst_cas) if exclude else set()
+            elif exclude: U = (lcas & set(dst_cas)) | (set(dst_cas) - src_cas_set)
+            else: U = set(dst_cas) - lcas
+            keep = {(ph_, c) for c in U}
+            rec.check(dst.phase == before['phases'][0], 'copy_flow', f'phase-changed/{ftag}/{tag}', f'copy_flow changed the phase of its single-phase target: {before["phases"][0]} -> {dst.phase}')
+        else:
+            psel = set(dphs) if phase is None else {phase}
+            L_ = set(dst_cas) if IDs is None else lcas
+            cells = {(ph_, c) for ph_ in dphs for c in dst_cas}
+            named = {(ph_, c) for ph_ in psel for c in L_}
+            if exclude:
+                keep = set(named)
+                if not sm: keep |= {q for q in cells if q[0] != src_row}      # a single-phase source only reaches the row of its phase
+            elif sm: keep = cells - named
+            else:
+                # single-phase source onto a multi-phase target, exclude=False: the library empties the target first (undocumented either way):
+                # an unselected cell holds what it held, or nothing - never something brought over
+                keep_or_zero = cells - ({q for q in named if q[0] == src_row})
+            rec.check(tuple(dst.phases) == before['phases'], 'copy_flow', f'phases-changed/{ftag}/{tag}', f'copy_flow changed the phases of its target: {before["phases"]} -> {tuple(dst.phases)}')
+        bad = [(q, b4.get(q, 0.0), da.get(q, 0.0)) for q in sorted(keep) if da.get(q, 0.0) != b4.get(q, 0.0)]
+        bad += [(q, b4.get(q, 0.0), da.get(q, 0.0)) for q in sorted(keep_or_zero) if da.get(q, 0.0) not in (b4.get(q, 0.0), 0.0)]
+        stray = [(q, v) for q, v in sorted(da.items()) if dm and q not in cells]
+        rec.check(not bad and not stray, 'copy_flow', f'unselected-changed/{ftag}/{tag}', f'copy_flow({ftag}; {tag}) changed entries of the target it did not select (listed {sorted(listed)}, exclude={exclude}, phase={phase}; '
+                  f'(phase, CAS), before, after): {bad[:6]}' + (f'; entries outside the phases x chemicals of the target: {stray[:4]}' if stray else ''))
+        if any(b4.get(q) for q in keep): rec.hit('copy_flow:unselected-judged')
+        if any(b4.get(q) for q in keep_or_zero): rec.hit('copy_flow:unselected-judged/emptied-or-kept')
+        rec.check(dst.T == before['T'] and dst.P == before['P'], 'copy_flow', f'TP-changed/{ftag}/{tag}', f'copy_flow changed T, P of its target: {before["T"]}, {before["P"]} -> {dst.T}, {dst.P}')
+    except Exception as e:
+        rec.exception('copy_flow', e, what=f'reading the target after copy_flow({ftag}; {tag}) raised {type(e).__name__}: {str(e)[:150]}'); return
     e = stream_invariant(dst); rec.check(e is None, 'invariant', 'copy_flow', f'sparse invariant: {e}')
     try:
         indep_after(src, dst, rec, 'copy_flow', ftag + '/' + tag)
     except Exception as e:
         rec.exception('copy_flow', e, what=f'mutating after copy_flow({ftag}; {tag}) raised {type(e).__name__}: {str(e)[:150]}'); return
     rec.hit('copy_flow')
+    rec.hit('copy_flow:judged/' + ('multi' if dm else 'single') + '-target')      # (the ':single-target' / ':multi-target' counters above count attempts)
     if len(ss['flows']) >= 2: rec.mark_nontrivial(case_hash(case))
 
 
@@ -772,12 +866,22 @@ def run_linkkinds(case, rec):
     elif diffph: rec.hit('linkkinds:phase-sets')
     if foreign and not cross: rec.hit('linkkinds:packages')
     sa, sb = snap(a), snap(b)
+    # link_with documents a refusal for streams of different kinds, and - only when the flows are to be linked - for other chemical IDs or other phase sets:
+    # decided here from the inputs, so that a refusal for any other configuration (flow=False between packages or phase sets) is judged, not counted
+    other_ids = a.chemicals.IDs != b.chemicals.IDs
+    warranted = cross or (bool(f[0]) and (other_ids or diffph))
+    ltag = tag + '/' + ''.join('FPT'[i] if x else '-' for i, x in enumerate(f))
     try:
         b.link_with(a, flow=f[0], phase=f[1], TP=f[2])
     except RuntimeError as e:
         if 'cannot link' not in str(e):
             rec.exception('link', e, what=f'link_with({tag}) raised RuntimeError: {str(e)[:150]}'); return
-        rec.refuse('link_with refused: ' + ('streams of different kinds' if cross else 'other reason'))
+        if not warranted:
+            rec.check(False, 'link', f'refused-unwarranted/{ltag}', f'link_with(flow={f[0]}, phase={f[1]}, TP={f[2]}) between streams of the same kind was refused ({str(e)[:120]}) although '
+                      + ('the flows are not to be linked' if not f[0] else 'both have the same chemical IDs and the same phases') + f': chemicals {a.chemicals.IDs} / {b.chemicals.IDs}, phases {sa["phases"]} / {sb["phases"]}')
+        else:
+            rec.refuse('link_with refused: ' + ('streams of different kinds' if cross else ('flows to be linked between other chemicals' if other_ids else 'flows to be linked between other phase sets')))
+            rec.hit('linkkinds:refused-warranted')
         # a refusal leaves both untouched and nothing shared
         try:
             rec.check(same_snap(snap(a), sa) and same_snap(snap(b), sb), 'link', f'refused-but-changed/{tag}', f'a refused link_with changed a stream: {sa}, {sb} -> {snap(a)}, {snap(b)}')
@@ -797,6 +901,9 @@ def run_linkkinds(case, rec):
         return
     except Exception as e:
         rec.exception('link', e, what=f'link_with({tag}) raised {type(e).__name__}: {str(e)[:150]}'); return
+    if warranted: rec.hit('linkkinds:accepted-where-refusal-documented')
+    elif foreign and not cross: rec.hit('linkkinds:accepted/no-flow/other-package')
+    elif diffph: rec.hit('linkkinds:accepted/no-flow/other-phases')
     if f[0] and (foreign or diffph):
         # one container cannot serve two chemical orders / phase sets: an accepted link must still show the same flows on both sides, before and after a write
         eq = (lambda u, w: u == w) if (am and bm) else (lambda u, w: bycas(u) == bycas(w))
@@ -866,18 +973,16 @@ def _rxn_state(r):
 def run_pickle2(case, rec):
     what = case['what']
     th = thermo_of(PKGS[0])
-    rec.hit('pickle2:' + what)
     try:
         if what in ('empty', 'M1', 'labels', 'units', 'proxy', 'view', 'linked-pair'):
             d = case.get('s')
             if what == 'units':
                 fl = {i: v for i, v in zip(PKGS[0], case['flows']) if v}
                 if not fl: fl = {'Water': 1.0}
-                try:
-                    if case['multi']: s = tmo.MultiStream(None, l=list(fl.items()), g=[('Ethanol', 2.5)], units=case['units'], total_flow=case['total'], T=case['T'], thermo=th, price=case['price'])
-                    else: s = tmo.Stream(None, units=case['units'], total_flow=case['total'], T=case['T'], thermo=th, price=case['price'], **fl)
-                except Exception:
-                    rec.refuse('pickle2: stream with units/total_flow could not be built'); return
+                # every units form here is a documented constructor argument: a raise is judged (the enclosing handler), not counted as a refusal
+                if case['multi']: s = tmo.MultiStream(None, l=list(fl.items()), g=[('Ethanol', 2.5)], units=case['units'], total_flow=case['total'], T=case['T'], thermo=th, price=case['price'])
+                else: s = tmo.Stream(None, units=case['units'], total_flow=case['total'], T=case['T'], thermo=th, price=case['price'], **fl)
+                rec.check(s.price == case['price'], 'pickle2', f'ctor-price/{"multi" if case["multi"] else "single"}', f'constructor dropped price: {s.price} != {case["price"]}')
                 objs = [s]
             elif what == 'proxy':
                 a = build_stream(d, PKGS); a.price = case['price']
@@ -1006,13 +1111,13 @@ def run_pickle2(case, rec):
             rec.mark_nontrivial(case_hash(case))
     except Exception as e:
         rec.exception('pickle2', e, what=f'pickle round trip ({what}) raised {type(e).__name__}: {str(e)[:150]}'); return
+    rec.hit('pickle2:' + what)      # counted once the object has been built, pickled and judged (not on entry)
     rec.hit('pickle2')
 
 
 # ---------------------------------------------------------------------------------------------------------------------
 def run_copy_like2(case, rec):
     form = case['form']
-    rec.hit('copy_like2:' + form)
     if form == 'self':
         t = build_stream(case['tt'], PKGS)
         tag = 'self/' + ('multi' if isinstance(t, tmo.MultiStream) else 'single')
@@ -1054,7 +1159,12 @@ def run_copy_like2(case, rec):
         try:
             v.copy_like(s)
         except AttributeError as e:
-            if 'phase is locked' in str(e): rec.refuse('copy_like onto a phase view from a source in another phase: phase is locked'); return
+            sph_ = s.phases[0] if sm else s.phase
+            if 'phase is locked' in str(e):
+                # documented only for a source in another phase than the view (the view cannot change its phase); seen from the inputs
+                if sph_ == ph:
+                    rec.check(False, 'copy_like2', f'refused-unwarranted/{tag}', f'copy_like onto the phase view of phase {ph!r} from a source in the same phase raised AttributeError: {str(e)[:100]}'); return
+                rec.refuse('copy_like onto a phase view from a source in another phase: phase is locked'); rec.hit('copy_like2:view-target-refused-warranted'); return
             rec.exception('copy_like2', e, what=f'copy_like onto a phase view ({tag}) raised AttributeError: {str(e)[:150]}'); return
         except Exception as e:
             rec.exception('copy_like2', e, what=f'copy_like onto a phase view ({tag}) raised {type(e).__name__}: {str(e)[:150]}'); return
@@ -1090,6 +1200,7 @@ def run_copy_like2(case, rec):
             rec.check(same_snap(snap(m), sm_), 'copy_like2', f'not-independent/{tag}', 'mutating the target after copy_like from a phase view changed the parent of the view')
         e = stream_invariant(t); rec.check(e is None, 'invariant', 'copy_like2', f'sparse invariant: {e}')
         if len(sv['flows']) >= 2: rec.mark_nontrivial(case_hash(case))
+    rec.hit('copy_like2:' + form)      # counted once the form has been judged (not on entry)
     rec.hit('copy_like2')
 
 
@@ -1388,6 +1499,7 @@ def check_bases(x, rec, stage, tag, vol=True):
         if form in skip: continue
         bad = [(k(r, j), g, float(rv[r, j])) for (r, j), g in zip(cells, got) if not close(g, float(rv[r, j]), 1e-9)]
         rec.check(not bad, 'basis', f'read-{form}/{tag}', f'{form} of a stream ({where}) differs from that of a fresh stream in the same state (key, read, fresh): {bad}')
+    rec.hit('basis:vol-judged')
     rec.check(close(Fv, rF, 1e-9), 'basis', f'read-F_vol/{tag}', f'F_vol of a stream ({where}) is {Fv}, a fresh stream in the same state has {rF}')
 
 
@@ -1463,7 +1575,6 @@ def unpickled_snap(so, sr):
 
 def run_basis(case, rec):
     sc = case['sc']
-    rec.hit('basis:' + sc)
     if sc == 'xfer':
         t = build_b(case['tgt']); srcs = [build_b(d) for d in case['srcs']]
         if case['tgt'].get('units') or any(d.get('units') for d in case['srcs']): rec.hit('basis:ctor-units')
@@ -1599,6 +1710,7 @@ def run_basis(case, rec):
         # after unlink of either side nothing is shared any more
         write_round(objs, 'independent', case['writes2'], rec, utag)
         if len(sa['flows']) >= 2: rec.mark_nontrivial(case_hash(case))
+    rec.hit('basis:' + sc)      # counted once the scenario ran to its end and was judged (not on entry)
     rec.hit('basis')
 
 
